@@ -1,7 +1,7 @@
 (* Extraction of the executable model to OCaml.  Only ExtrOcamlBasic is used:
    numbers stay Coq's positive/N/Z datatypes. *)
 From Coq Require Import ZArith List Extraction ExtrOcamlBasic.
-From IVG Require Import SF NumCodec Color Calls Decoder Encoder.
+From IVG Require Import SF NumCodec Color Calls Decoder Encoder Render Gradient GoMath Arc.
 Extraction Language OCaml.
 Extraction "model.ml"
   SF.fadd SF.fsub SF.fmul SF.fdiv SF.fsqrt SF.fcompare SF.of_Z SF.convert SF.ffloor SF.fceil SF.ftrunc
@@ -13,4 +13,6 @@ Extraction "model.ml"
   Color.valid_premul Color.valid_gradient
   Calls.default_viewbox Calls.default_palette
   Decoder.decode_items Decoder.decode_calls Decoder.decode_viewbox Decoder.disassemble Decoder.calls_of
-  Encoder.enc_zero Encoder.enc_run Encoder.enc_act Encoder.enc_bytes.
+  Encoder.enc_zero Encoder.enc_run Encoder.enc_act Encoder.enc_bytes
+  Render.rinit Render.N32 Arc.rstep32 Arc.rrun32 Gradient.pix2grad Gradient.grad_at Gradient.clamp
+  GoMath.gosin GoMath.gocos GoMath.goacos.
